@@ -69,6 +69,12 @@ func (c *Calcium) RunAndWait(ctx context.Context, opts *types.DeployOptions, inC
 		commit, err := c.wal.Log(eventCreateLambda, message.WorkloadID)
 		if err != nil {
 			logger.Error(ctx, err)
+			// the workload exists although it could not be logged: remove it before reporting
+			rctx, cancel := context.WithCancel(utils.NewInheritCtx(ctx))
+			defer cancel()
+			if e := c.doRemoveWorkloadSync(rctx, []string{message.WorkloadID}); e != nil {
+				logger.Error(ctx, e, "Remove lambda workload failed")
+			}
 			return &types.AttachWorkloadMessage{
 				WorkloadID:    message.WorkloadID,
 				Data:          []byte(fmt.Sprintf("Create wal failed: %s, %+v", message.WorkloadID, err)),
